@@ -154,12 +154,21 @@ type tokRec struct {
 	Off, Line, Col int
 }
 
+var lastLongText string
+
 func scanImpl(text string) (toks []tokRec, lexErr string, err error) {
 	perr := rec.Guard(func() {
 		var l *ebnflexer.Lexer
 		l, err = ebnflexer.New("t.ebnf", strings.NewReader(text))
 		if err != nil {
 			return
+		}
+		if len(text) > 4096 {
+			// a scanner for another long text is created before this one is used: what this one reads is its own text
+			if lastLongText != "" {
+				_, _ = ebnflexer.New("other.ebnf", strings.NewReader(lastLongText))
+			}
+			lastLongText = text
 		}
 		for i := 0; i < len(text)+10; i++ {
 			var tok lexer.Token
